@@ -532,10 +532,12 @@ class Facts:
         """(trait path, method name) -> list of local def paths implementing it."""
         if self._trait_impls is None:
             t = defaultdict(list)
+            self._trait_refs = {}
             for im in self.impls:
                 if 'trait' in im:
                     for it in im['items']:
                         t[(im['trait'], it['name'])].append(it['path'])
+                        self._trait_refs[it['path']] = im.get('trait_ref') or ''
             self._trait_impls = t
         return self._trait_impls
 
@@ -550,7 +552,16 @@ class Facts:
         elif r and c.get('res_local'):
             out.append(r)
         elif not r and expand_traits and c.get('trait'):
-            out.extend(self.trait_impls.get((c['trait'], c.get('method')), []))
+            cands = self.trait_impls.get((c['trait'], c.get('method')), [])
+            # a call on a type parameter: only impls of the same trait instance (`TryFrom<u8>`, not `TryFrom<ByteString>`)
+            targs = list(c.get('args') or [])[1:]
+            targs = [a for a in targs if not a.startswith("'")]
+            if targs and not any(re.match(r'^[A-Z][A-Za-z0-9]*$', a) for a in targs):
+                want = ' as %s<%s>>' % (c['trait'], ', '.join(targs))
+                narrowed = [p_ for p_ in cands if self._trait_refs.get(p_, '').endswith(want)]
+                if narrowed or any(self._trait_refs.get(p_) for p_ in cands):
+                    cands = narrowed
+            out.extend(cands)
         elif not r and c.get('local') and d in self.bodies:
             out.append(d)
         return out
